@@ -312,6 +312,56 @@ func cmdCheck(args []string) int {
 		rp := writeReplay(eng, replayDir, *prop, j, *repo)
 		out = append(out, rp)
 	}
+	// bounded stand-ins (labelled bounded; never counted as proved)
+	type boundedRec struct {
+		Name   string `json:"name"`
+		File   string `json:"file"`
+		Cases  int    `json:"cases"`
+		Passed bool   `json:"passed"`
+		Secs   float64 `json:"seconds"`
+		Bound  string `json:"bound"`
+	}
+	var bounded []boundedRec
+	if *only == "" {
+		bfiles, _ := filepath.Glob(filepath.Join(*verif, "bounded", *prop+"_*_test.go"))
+		for _, bf := range bfiles {
+			data, _ := os.ReadFile(bf)
+			dir := ""
+			for _, ln := range strings.Split(string(data), "\n") {
+				if strings.HasPrefix(ln, "// govc:bounded") {
+					for _, w := range strings.Fields(ln) {
+						if strings.HasPrefix(w, "dir=") {
+							dir = w[4:]
+						}
+					}
+				}
+			}
+			if dir == "" {
+				continue
+			}
+			bt0 := time.Now()
+			okb, outb := runOverlayTestNamed(filepath.Join(*repo, dir), bf, "^TestGovcBounded")
+			cases := 0
+			for _, ln := range strings.Split(outb, "\n") {
+				if i := strings.Index(ln, "GOVC-BOUNDED-CASES "); i >= 0 {
+					cases, _ = strconv.Atoi(strings.TrimSpace(ln[i+len("GOVC-BOUNDED-CASES "):]))
+				}
+			}
+			passed := okb && !strings.Contains(outb, "GOVC-BOUNDED-VIOLATED") && cases > 0
+			bounded = append(bounded, boundedRec{Name: filepath.Base(bf), File: bf, Cases: cases, Passed: passed, Secs: time.Since(bt0).Seconds(), Bound: "see the header comment of the file"})
+			if !passed {
+				name := "bounded:" + filepath.Base(bf)
+				if f := isKnown(name); f != nil {
+					out = append(out, fmt.Sprintf("KNOWN-FINDING: property=%s %s", *prop, f.Text))
+					continue
+				}
+				violations++
+				rp := filepath.Join(replayDir, sanitize(*prop+"__"+name)+".txt")
+				os.WriteFile(rp, []byte("bounded stand-in "+bf+" failed on the real code:\n"+truncate(outb, 6000)), 0644)
+				out = append(out, fmt.Sprintf("VIOLATION property=%s replay=%s obligation=%s", *prop, rp, name))
+			}
+		}
+	}
 	// obligations that could not even be generated
 	for _, g := range genFailures {
 		name := strings.SplitN(g, ":", 2)[0] + "/generate"
@@ -371,6 +421,7 @@ func cmdCheck(args []string) int {
 				"vcgen_seconds":            tGen,
 				"dropped":                  sortedBoolKeys(dropped),
 				"known_findings_reported":  len(knownHit),
+				"bounded_standins":         bounded,
 				"samples":                  samples,
 				"all_obligations":          recs,
 				"explanation":              "each obligation is one SMT query generated from the SSA of the named function in /repo's working tree and its contract; discharged = the solver answered unsat (sat for vacuity guards)",
